@@ -49,6 +49,14 @@ CHECKS = {
          "Sound static analysis of a sufficient-and-necessary structural condition for race freedom among the listed calls: no may-write reaches memory of or reachable from a shared root or a package-level variable except synchronised containers, Once-protected tables and constructor-forced lazy initialisation, and no result aliases mutable package-level state. Two genuine violations inside circl v1.3.7 (in-place normalisation of the shared P-384 public-key element) are recorded as known findings. Three reviewed exceptions document call-graph/field-insensitivity artefacts, each confirmed race-free dynamically once.",
          "Trusts go/ssa, VTA call graph, effects.go, the reviewed std write table and exception table (printed in evidence); std concurrency guarantees as documented.",
          "DESIGN.md §4 C17"),
+ "C04": ("writer/reader layout agreement: symbolic byte-layout terms of encoders vs checked read sequences of decoders on SSA, widths from go/types constants; cache-discipline dominance; tag checks; batch walker structure",
+         "Sound static analysis of structural necessary conditions of round-tripping: for every wire structure the encoder's layout term and the decoder's checked read sequence on accepting paths match the structure's layout (fields, order, prefix kinds, widths by constant value) and decoded fields are assigned from the bytes read; every method that can change what Marshal reads resets the encoding cache on every success path; each request decoder requires its own type tag; the generic batch walkers map tags to the matching decoder, reject others, advance by the consumed length, and the response list uses per-type fixed lengths. Does not decide value-level round trips (e.g. commas in OriginInfo) or cryptobyte's own correctness.",
+         "Trusts go/types, go/ssa, this checker's term and reader extractors, the layout table in c04.go (from the repository's struct comments and constants), cryptobyte.",
+         "DESIGN.md §4 C04"),
+ "C05": ("slot/index discipline on SSA: natural loops, dominance facts on slot stores, symbolic binding of lookup/key-match/evaluate arguments, emit-layout term with branch arms, error-discipline query",
+         "Sound static analysis of structural necessary conditions: one slot per request written only at the request's own index with either an empty value or the matched issuer's successful result; lookup by the request's type and last byte of the key id; a failing issuer neither ends the search nor the batch; present/absent status derived from slot emptiness with the same index; decoder mirrors the layout; the basic issuers' Evaluate succeed only behind their decode/evaluate/encode success edges with no error dropped. Does not decide that a present entry finalizes to a valid token (C01/C02).",
+         "Trusts go/ssa dominators/loops, this checker's term evaluator; registered issuers behave like the repository's (non-empty response on success).",
+         "DESIGN.md §4 C05"),
 }
 PENDING_REASON = "check under construction in this round (see DESIGN.md §4 for the planned static rule); not claimed until the rule runs clean on the tree and fires on its seeded breakage"
 NOT_APPLICABLE = {}
